@@ -17,13 +17,47 @@ package main
 //               when the function returns its receiver.
 //   slices      []uint is a Lean `List Nat` (a value): literals, make([]uint, n), append(s, x…) = s ++ [x…],
 //               append(s, r...) = s ++ r, len; `for _, x := range []uint{e1, …}` (no break/continue) is
-//               unrolled after evaluating the elements; indexing of slices is NOT supported
+//               unrolled after evaluating the elements.  Also []int (`List Int`) and [][]uint
+//               (`List (List Nat)`), make([]T, n, n) (n zero values; capacity = length only)
+//   indexing    `s[i]` of a slice and `s[i] = e`, `s[i]++`, `s[i][j] = e` (List.getD / List.set) make the
+//               function PARTIAL: Go panics when an index is out of range (or a signed make length is
+//               negative).  The function is then translated with result type `Option …`; every statement
+//               is preceded by the guards of the index expressions it evaluates (`0 ≤ i ∧ i < len` for an
+//               int index, `i < len` for a uint index, evaluated in the state before the statement, as Go
+//               evaluates operands before assigning) and yields `none` when a guard fails (inside a loop:
+//               the loop's return slot gets `some none`).  The `getD` default is never reached under its
+//               guard.  Refused: an indexing expression on the right of && / || (short-circuit), in a
+//               loop condition, a switch case, a declaration, a function literal; calls of partial
+//               functions other than `return self(…)`.  Which panic occurs first is not distinguished;
+//               running out of memory in make is not modelled.  Slices are values: the subset has no
+//               aliasing (a slice variable is only changed through its own name or receiver field).
+//   structs     a struct of the package all of whose fields are words/ints/bools/slices is the tuple of
+//               its fields in declaration order; `&T{f: e, …}` / `T{…}` is that tuple with zero values for
+//               omitted fields (a pointer to a fresh value is the value); a receiver field of type
+//               bool/int/slice is a parameter of that type
+//   void methods  a method without results returns the final values of the receiver fields it assigns
+//               (sorted by mangled name); assumes the receiver is reachable only through its own name
+//   range       `for i := range s`, `for _, x := range s`, `for i, x := range s` over a slice variable or
+//               field s: `rngN_len := len(s); for i := 0; i < rngN_len; i++ { x := s[i]; … }` (Go evaluates
+//               the range expression once; refused when the body assigns the key, or — with a value
+//               variable — assigns s)
+//   continue    `continue` (own loop): the rest of the body is dropped, the post statement runs.
+//               `continue L` inside a loop nested directly in the body of the loop labelled L:
+//               `cntN := false; inner loop with {cntN = true; break} for continue L; if cntN { continue }`
+//   qualified calls  `pkg.F(…)` of an already translated package-level function
+//   nil objects `var e *T` (no value): e is a local object whose nil value word is the uninterpreted
+//               parameter `nil_T` (so nothing can be proved about a returned nil)
+//   method chains  `x.M(a).P()` as a condition, x a local object: `method_P (method_M x a)` with an
+//               uninterpreted `method_P : Nat → Bool`
+//   division    `/` and `%` are Lean's total operations (x / 0 = 0): a Go division by zero (panic) is NOT
+//               modelled, also not in partial functions
 //   switch      `switch x { case a, b: … }` on a variable (no break/fallthrough)
-//   loops       may be nested; `return` inside a loop only at nesting depth one; `break` belongs to the
-//               innermost loop
+//   loops       may be nested; `return` inside nested loops: every loop has its own return slot, filled
+//               from the slot of the inner loop; `break` belongs to the innermost loop
 //   recursion   a function that calls itself gets a recursion fuel as first argument:
 //               `go_f : Nat → args → res`, `go_f 0 _ = default`, the body calls `self := go_f recFuel`;
-//               callers pass `loopFuel`
+//               callers pass `loopFuel`; a method calling itself on its own receiver likewise, with the
+//               receiver fields it reads as fixed parameters in front of the fuel
 //   local objects  `x := a.Copy()`, `x := a.field.One()` (a call rooted at an object parameter) makes x a
 //               local object represented by its value word; `x.M(args)` as an expression is
 //               `method_M x args`, as a statement `x := method_M x args`, with `method_M` an uninterpreted
